@@ -324,10 +324,6 @@ func ruleCloseWithCallers(c *core.Ctx, a *epAnchors, lc *core.LockCache, rule st
 				c.Fail(rule, key, call.Pos(), "Handler.closeWith is called on a handler that is not read from an endPoint.handlers slot: it can run twice for one handler")
 				continue
 			}
-			if h, _ := lc.Get(fn).HeldAt(in, a.class, true); !h {
-				c.Fail(rule, key, call.Pos(), "Handler.closeWith is called without handlersMutex held: it races with dispatch/RemoveHandler and can run twice")
-				continue
-			}
 			// guarded by slot != nil
 			isSlot := func(v ssa.Value) bool {
 				i2, ok := a.slotLoadIndex(v)
@@ -335,6 +331,41 @@ func ruleCloseWithCallers(c *core.Ctx, a *epAnchors, lc *core.LockCache, rule st
 			}
 			if !core.Guarded(fn, in, core.Ne(isSlot, core.IsNilConst)) {
 				c.Fail(rule, key, call.Pos(), "Handler.closeWith is called on a slot not tested against nil")
+				continue
+			}
+			// the handler taken out of the table: read under the mutex and its slot
+			// cleared before the mutex is released, on every way to the close; whoever
+			// took it out is the only one that can close it, with or without the mutex
+			if ld, ok := core.Canon(recv).(ssa.Instruction); ok && ld.Parent() == fn {
+				if h, _ := lc.Get(fn).HeldAt(ld, a.class, true); h {
+					isUnlock := func(x ssa.Instruction) bool {
+						cc, isCall := x.(ssa.CallInstruction)
+						if !isCall {
+							return false
+						}
+						if _, isDefer := x.(*ssa.Defer); isDefer {
+							return false
+						}
+						op, isOp := core.LockOpOf(cc)
+						return isOp && op.Class == a.class && op.Kind == core.OpUnlock
+					}
+					locked := core.ReachFrom(core.After(ld), isUnlock, nil)
+					clearsLocked := func(x ssa.Instruction) bool {
+						st, ok := x.(*ssa.Store)
+						if !ok || !core.IsNilConst(st.Val) || isUnlock(x) {
+							return false
+						}
+						ia, ok := st.Addr.(*ssa.IndexAddr)
+						return ok && isFieldOf(ia.X, a.handlers) && core.SameValue(ia.Index, idx) && locked.Has(x)
+					}
+					if !core.ReachFrom(core.After(ld), clearsLocked, nil).Has(in) {
+						c.Pass(rule, key, call.Pos(), "the handler is taken out of the table (non-nil slot read and cleared in one critical section) before it is closed")
+						continue
+					}
+				}
+			}
+			if h, _ := lc.Get(fn).HeldAt(in, a.class, true); !h {
+				c.Fail(rule, key, call.Pos(), "Handler.closeWith is called without handlersMutex held on a handler that is still in the table: it races with dispatch/RemoveHandler and can run twice")
 				continue
 			}
 			// the slot was read and tested in the critical section that closes it: no
@@ -1063,12 +1094,63 @@ func ruleCallbacks(c *core.Ctx, a *epAnchors, lc *core.LockCache, rule string) {
 		}
 		return "", token.NoPos
 	}
+	// where closers run with the mutex held: the plain calls of Handler.closeWith
+	// made under it; conditional = only for a handler whose own filter has just
+	// answered keep=false (dispatch)
+	nUnder, allOnNotKeep := 0, true
+	for _, fn := range srcFuncsOfPkg(c, "bus/net") {
+		for _, call := range core.Calls(fn) {
+			cv, plain := call.(*ssa.Call)
+			if !plain || !core.IsCallTo(call, a.hCloseWith) || !lc.Get(fn).MayHeld(cv)[a.class] {
+				continue
+			}
+			nUnder++
+			h := cv.Call.Args[0]
+			isKeep := func(v ssa.Value) bool {
+				e, ok := core.Canon(v).(*ssa.Extract)
+				if !ok || e.Index != 1 {
+					return false
+				}
+				fc, ok := e.Tuple.(*ssa.Call)
+				if !ok || fc.Call.IsInvoke() || fc.Call.StaticCallee() != nil || !isFieldOf(fc.Call.Value, a.hFilter) {
+					return false
+				}
+				return core.SameValue(core.RootOf(fc.Call.Value), core.Canon(h)) || core.RootOf(fc.Call.Value) == core.RootOf(h)
+			}
+			if !core.Guarded(fn, cv, core.IsFalse(isKeep)) {
+				allOnNotKeep = false
+			}
+		}
+	}
+	alwaysKeeps := func(v ssa.Value) bool {
+		f, ok := funcValue(v)
+		if !ok || f == nil || len(f.Blocks) == 0 {
+			return false
+		}
+		for _, r := range core.Returns(f) {
+			if len(r.Results) != 2 {
+				return false
+			}
+			if keep, isConst := core.ConstBool(core.RetVal(r, 1)); !isConst || !keep {
+				return false
+			}
+		}
+		return true
+	}
 	for _, s := range handlerSites(c, a) {
 		for _, cb := range []struct {
 			kind string
 			v    ssa.Value
 		}{{"closer", s.closer}, {"filter", s.filter}} {
 			key := cb.kind + "@" + s.key()
+			if cb.kind == "closer" && nUnder == 0 {
+				c.Pass(rule, key, s.call.Pos(), "closers never run with handlersMutex held (handlers are taken out of the table and closed after the mutex is released)")
+				continue
+			}
+			if cb.kind == "closer" && allOnNotKeep && alwaysKeeps(s.filter) {
+				c.Pass(rule, key, s.call.Pos(), "the closer runs with handlersMutex held only when the handler's own filter answers keep=false, which this filter never does; RemoveHandler and shutdown close it after releasing the mutex")
+				continue
+			}
 			f, ok := funcValue(cb.v)
 			if !ok {
 				if _, isParam := core.Canon(cb.v).(*ssa.Parameter); isParam {
